@@ -17,4 +17,4 @@ package hash
 // every exported field); what hashstructure covers is examined by the structural clause fields_hashed.
 //@ func Hash
 //@   pure allocates
-//@   site v2.Hash#1 requires arg0 == box(type(*ast.Task), t) && arg2 == nil            [C06,C01]
+//@   site v2.Hash#1 requires arg0 == box(type(*ast.Task), t) && arg2 == nil     -- the WHOLE compiled task, its variables included: two calls with different variables are different executions   [C06,C01,C11]
